@@ -298,3 +298,22 @@ Lemma prog_count_exact :
   forall (p : prog X), wf_prog p ->
     exists W, td_count (run xarith p) = Fin W /\ W == wsum (inputs p).
 Proof. intros p Hw. exact (count_exact (inputs p) (run xarith p) (run_inv p Hw)). Qed.
+
+(* ------------------------------------------------------------------ lists of quantiles
+   TDigest::quantiles and ApproxQuantiles::finish answer position by position: the i-th result is
+   the estimate for the i-th requested q, whatever the order of the request (any arithmetic) *)
+Lemma quantiles_pointwise :
+  forall (T : Type) (A : arith T) (d : digest T) (qs : list T),
+    td_quantiles A d qs = map (td_quantile A d) qs /\
+    length (td_quantiles A d qs) = length qs /\
+    length (aq_finish A qs d) = length qs /\
+    forall i, nth_error (aq_finish A qs d) i
+              = option_map (fun q => if td_is_empty A d then a_nan A
+                                     else td_quantile A (td_compress A d) q)
+                           (nth_error qs i).
+Proof.
+  intros T A d qs. split; [reflexivity|]. split; [apply map_length|].
+  unfold aq_finish, td_quantiles. destruct (td_is_empty A d).
+  - split; [apply map_length|]. intro i. apply nth_error_map.
+  - split; [apply map_length|]. intro i. apply nth_error_map.
+Qed.
